@@ -313,7 +313,7 @@ func runGxz(c *hx.Ctx, bin string, sc gxzScenario, plan ptr.Plan) (*gxzRun, erro
 			eof = true
 		}
 		creat := e.Name == "openat" && e.Flags&(syscall.O_CREAT|syscall.O_WRONLY|syscall.O_RDWR|syscall.O_TRUNC) != 0
-		fmt.Fprintf(&tr, `{"ev":"Sys","name":"%s","a":"%s","b":"%s","ret":%d,"creat":%v,"eofSeen":%v}`+"\n", e.Name, a, bsym, e.Ret, creat, eof)
+		fmt.Fprintf(&tr, `{"ev":"Sys","name":"%s","a":"%s","b":"%s","ret":%d,"creat":%v,"eofSeen":%v,"unfinished":%v}`+"\n", e.Name, a, bsym, e.Ret, creat, eof, e.Unfinished)
 		if (plan.FailAt != 0 && e.J == plan.FailAt) || (plan.KillAt != 0 && e.J == plan.KillAt) || (plan.SignalAt != 0 && e.J == plan.SignalAt) {
 			r.at = e.Name + ":" + a
 		}
